@@ -62,6 +62,10 @@ func pairShape(ok bool, err error) string {
 // hotpValidate evaluates one validation; window is the reference window (nil => compute).
 func hotpValidate(c c03Case, key []byte, window []string, pairMode bool) (obs, bad string) {
 	ok, err, p := callValidateHOTP(c)
+	if p == fuseMsg {
+		addSuspect(c) // decided sequentially by hotpSuspects
+		return "cut-off", ""
+	}
 	if p != "" {
 		return "panic:" + p, "panicked: " + p
 	}
@@ -113,7 +117,31 @@ var hotpValCounters = func() []uint64 {
 	return c
 }()
 
+// hotpSuspects decides the cut-off calls exactly: sequentially, counting derivations at the constructor seam.
+func hotpSuspects(r *ev.Run) {
+	for _, x := range takeSuspects() {
+		c, ok := x.(c03Case)
+		if !ok {
+			continue
+		}
+		n := countDerivations(func() { callValidateHOTP(c) })
+		s := c.Skew
+		if c.Nil {
+			s = 2
+		}
+		lim := int64(2*s + 1)
+		if s > 10 {
+			lim = 0
+		}
+		if n > lim {
+			r.Fail("hotp-validate-work", fmt.Sprintf("skew=%d counter=%d code=%q: validation does not end within %d derivations (the window holds %d candidates)", s, c.Counter, trunc80(c.Code), n, lim), c, fmt.Sprintf("at most %d derivations and a verdict", lim), fmt.Sprint(n, " derivations"))
+		}
+	}
+}
+
 func c03(r *ev.Run, pairMode bool) {
+	installFuse()
+	defer hotpSuspects(r)
 	scen := "hotp-validate"
 	r.Scenario(scen, func(raw []byte) (string, string) {
 		c := unjson[c03Case](raw)
@@ -151,6 +179,18 @@ func c03(r *ev.Run, pairMode bool) {
 		}
 		return fmt.Sprint(n), ""
 	})
+	{
+		k := []byte("12345678901234567890")
+		sp := ref.B32Encode(k)
+		var cs []c03Case
+		for _, ctr := range []uint64{5, 1 << 32} {
+			for dist := int64(-3); dist <= 3; dist++ {
+				cs = append(cs, c03Case{sp, ref.HOTP(k, uint64(int64(ctr)+dist), 6, 0), ctr, 2, 6, 0, false})
+			}
+			cs = append(cs, c03Case{sp, ref.HOTP(k, ctr, 8, 2), ctr, 0, 8, 2, false}, c03Case{sp, "000000", ctr, 10, 6, 0, false}, c03Case{Secret: sp, Code: ref.HOTP(k, ctr+2, 6, 0), Counter: ctr, Nil: true})
+		}
+		afterWarmups(r, "hotp-validate-after-other-operations", cs, func(c c03Case) (string, string) { return hotpValidate(c, k, nil, pairMode) })
+	}
 	if ReplayOnly {
 		return
 	}
@@ -175,6 +215,16 @@ func c03(r *ev.Run, pairMode bool) {
 							continue // quick: thin out the 2^31/2^32 boundary band
 						}
 						cfgs = append(cfgs, cfg{key, sec, c, s, d, a})
+					}
+				}
+			}
+		}
+		// windows straddling every binary carry of the counter (2^k-1 | 2^k, k = 1..63)
+		if ki == 0 {
+			for k := uint(1); k <= 63; k++ {
+				for _, s := range []uint64{0, 1, 2, 5, 10} {
+					for _, c := range []uint64{1<<k - 1, 1 << k} {
+						cfgs = append(cfgs, cfg{key, sec, c, s, 6, int(k % 3)})
 					}
 				}
 			}
